@@ -1255,6 +1255,8 @@ func c08deps(v ssa.Value, ctx c08ctx) map[string]bool {
 				return
 			}
 			walk(y.X, ctx, d+1)
+			// defaultPort[claimedScheme]: what selects the entry of a table decides the value
+			walk(y.Index, ctx, d+1)
 		case *ssa.Phi:
 			for _, e := range y.Edges {
 				walk(e, ctx, d+1)
@@ -1453,6 +1455,7 @@ type c08ctl struct {
 	cond ssa.Value
 	ctx  c08ctx
 	gate bool // when control does not go on to the block, the request is not handed to an upstream handler at all
+	then bool // the outcome of the condition with which control goes on towards the block
 }
 
 // c08ctlLocal: the conditions of the function's branches that decide whether b is reached: the (transitive) control
@@ -1512,10 +1515,11 @@ func c08ctlLocal(b *ssa.BasicBlock, ctx c08ctx) []c08ctl {
 			if !ok {
 				continue
 			}
-			nPD := 0
-			for _, s := range x.Succs {
+			nPD, lead := 0, -1
+			for k, s := range x.Succs {
 				if exit, _, hits := scan(s, t); hits && !exit {
 					nPD++ // t post-dominates this successor
+					lead = k
 				}
 			}
 			if nPD != 1 {
@@ -1530,7 +1534,7 @@ func c08ctlLocal(b *ssa.BasicBlock, ctx c08ctx) []c08ctl {
 						gate = false
 					}
 				}
-				out = append(out, c08ctl{iff.Cond, ctx, gate})
+				out = append(out, c08ctl{iff.Cond, ctx, gate, lead == 0})
 			}
 			if !done[x] {
 				done[x] = true
